@@ -499,6 +499,37 @@ Proof.
   apply (run_prefix fuel _ _ Hi0 Hrun).
 Qed.
 
+(* every infinite path of a checked graph is a behaviour of the two actions *)
+Lemma paths_are_behaviours g (path : nat -> nat) :
+  check_graph nx ny E S g = true ->
+  (forall i, In (path i, path (Datatypes.S i)) (edges g)) ->
+  let sigma := fun i => nth (path i) (nodes g) (0, 0) in
+  (forall i, nth_error (nodes g) (path i) = Some (sigma i)) /\
+  (forall i, E (fst (sigma i)) (snd (sigma i)) (fst (sigma (Datatypes.S i))) = true /\
+             S (fst (sigma i)) (snd (sigma i)) (fst (sigma (Datatypes.S i)))
+               (snd (sigma (Datatypes.S i))) = true).
+Proof.
+  intros H Hp. cbv zeta.
+  assert (Hedge : forall i, exists s t,
+            nth_error (nodes g) (path i) = Some s /\
+            nth_error (nodes g) (path (Datatypes.S i)) = Some t /\
+            E (fst s) (snd s) (fst t) = true /\ S (fst s) (snd s) (fst t) (snd t) = true).
+  { intros i. specialize (Hp i).
+    unfold check_graph in H. repeat rewrite andb_true_iff in H.
+    destruct H as [[[_ _] Hed] _]. rewrite forallb_forall in Hed. specialize (Hed _ Hp).
+    unfold edge_ok in Hed. cbn [fst snd] in Hed.
+    destruct (nth_error (nodes g) (path i)) as [s|]; [|discriminate].
+    destruct (nth_error (nodes g) (path (Datatypes.S i))) as [t|]; [|discriminate].
+    apply andb_true_iff in Hed. exists s, t. tauto. }
+  assert (Hn : forall i, nth_error (nodes g) (path i) = Some (nth (path i) (nodes g) (0, 0))).
+  { intros i. destruct (Hedge i) as [s [t [Hs _]]]. rewrite Hs. f_equal.
+    symmetry. apply nth_error_nth. exact Hs. }
+  split; [exact Hn|]. intros i.
+  destruct (Hedge i) as [s [t [Hs [Ht [He HS]]]]].
+  rewrite Hn in Hs, Ht. injection Hs as Es. injection Ht as Et. rewrite Es, Et.
+  split; assumption.
+Qed.
+
 End EnumP.
 
 (* ---- initial nodes ------------------------------------------------------ *)
